@@ -41,6 +41,19 @@ Definition chk_dag_rfr_fix (k : pcase) : bool :=
 Definition chk_dag_consolidate (k : pcase) : bool :=
   let '(nq, nc, c, e) := k in wire_eq nq nc (dag_consolidate_resets c) e.
 
+(* a list pass applied twice to the same circuit object *)
+Definition chk_twice_consolidate (k : pcase) : bool :=
+  let '(nq, nc, c, e) := k in circ_beq (consolidate_resets nq (consolidate_resets nq c)) e.
+Definition chk_twice_zero (k : pcase) : bool :=
+  let '(nq, nc, c, e) := k in circ_beq (remove_resets_in_zero_state nq (remove_resets_in_zero_state nq c)) e.
+Definition chk_twice_final (k : pcase) : bool :=
+  let '(nq, nc, c, e) := k in circ_beq (remove_final_resets nq (remove_final_resets nq c)) e.
+
+(* a whole subexperiment of generate_cutting_experiments:
+   (nq, placeholder?, subexperiment with the reset passes disabled, subexperiment as generated) *)
+Definition chk_e2e (k : nat * bool * circ * circ) : bool :=
+  let '(nq, ph, c, e) := k in circ_beq (subexperiment_resets nq ph c) e.
+
 (* all passes on one program (bounded-exhaustive stream):
    (nq, nc, input, [consolidate; zero; final; pipeline; dag_rfr; dag_rfr_fix; dag_consolidate]) *)
 Definition chk_all (k : nat * nat * circ * list circ) : bool :=
